@@ -4,7 +4,7 @@
 // libz -- which reach these functions through the dynamic symbol table -- call the harness versions, which can fail the first
 // write that would cross a chosen byte offset of the output file, return short counts, EINTR, or fail fsync/close. libbz2 writes
 // through stdio whose internal write is not interposable: for bzip2 the kernel provides the fault (RLIMIT_FSIZE with SIGXFSZ
-// ignored gives EFBIG at an exact byte offset).
+// ignored gives EFBIG at an exact byte offset), and a seccomp filter makes the close system call on the output descriptor fail.
 #include "filegen.hpp"
 #include "perturb.hpp"
 
@@ -15,7 +15,11 @@
 #include <osmium/thread/pool.hpp>
 
 #include <csignal>
+#include <cstddef>
 #include <fcntl.h>
+#include <linux/filter.h>
+#include <linux/seccomp.h>
+#include <sys/prctl.h>
 #include <sys/resource.h>
 #include <sys/stat.h>
 #include <sys/syscall.h>
@@ -149,7 +153,26 @@ static std::string slurp(const std::string& path) {
     return std::string((std::istreambuf_iterator<char>(f)), std::istreambuf_iterator<char>());
 }
 
-static RunResult run_writer(const Plan& p, bool explicit_close, long rlimit) {
+// A fault at the system call itself: from now on close(fd) fails with EIO in this process, whoever issues it (glibc's fclose() calls
+// close without going through the dynamic symbol table, so the interposer above cannot reach the bzip2 route). The kernel does not
+// run the call at all, the descriptor stays open for the rest of the process' life; one small seccomp filter per use.
+static bool make_close_fail(int fd) {
+    struct sock_filter f[] = {
+        BPF_STMT(BPF_LD | BPF_W | BPF_ABS, offsetof(struct seccomp_data, nr)),
+        BPF_JUMP(BPF_JMP | BPF_JEQ | BPF_K, __NR_close, 0, 3),
+        BPF_STMT(BPF_LD | BPF_W | BPF_ABS, offsetof(struct seccomp_data, args[0])),
+        BPF_JUMP(BPF_JMP | BPF_JEQ | BPF_K, static_cast<unsigned>(fd), 0, 1),
+        BPF_STMT(BPF_RET | BPF_K, SECCOMP_RET_ERRNO | (EIO & SECCOMP_RET_DATA)),
+        BPF_STMT(BPF_RET | BPF_K, SECCOMP_RET_ALLOW),
+    };
+    struct sock_fprog prog = {static_cast<unsigned short>(sizeof(f) / sizeof(f[0])), f};
+    if (::prctl(PR_SET_NO_NEW_PRIVS, 1, 0, 0, 0) != 0) return false;
+    return ::syscall(SYS_seccomp, SECCOMP_SET_MODE_FILTER, SECCOMP_FILTER_FLAG_TSYNC, &prog) == 0;
+}
+
+// syscall_close_fault: in: true = make the close of the Writer's output descriptor fail; out: whether that was set up and the Writer
+// really used the predicted descriptor
+static RunResult run_writer(const Plan& p, bool explicit_close, long rlimit, bool* syscall_close_fault = nullptr) {
     RunResult r;
     const std::string& path = out_path();
     {
@@ -168,6 +191,16 @@ static RunResult run_writer(const Plan& p, bool explicit_close, long rlimit) {
         struct rlimit nl = old_limit;
         nl.rlim_cur = static_cast<rlim_t>(rlimit);
         ::setrlimit(RLIMIT_FSIZE, &nl);
+    }
+    int predicted_fd = -1;
+    if (syscall_close_fault && *syscall_close_fault) {
+        // the Writer opens the file itself: it gets the lowest free descriptor, which is the one a probe gets now
+        predicted_fd = ::open("/dev/null", O_RDONLY);
+        ::syscall(SYS_close, predicted_fd);
+        if (predicted_fd < 0 || !make_close_fail(predicted_fd)) {
+            predicted_fd = -1;
+            *syscall_close_fault = false;
+        }
     }
     g.active = true;
     auto note = [&](const char* where, const std::exception& e) {
@@ -269,6 +302,13 @@ static RunResult run_writer(const Plan& p, bool explicit_close, long rlimit) {
     }
     g.active = false;
     if (rlimit >= 0) ::setrlimit(RLIMIT_FSIZE, &old_limit);
+    if (predicted_fd >= 0) {
+        // the descriptor could not be closed: it still names the output file if (and only if) the Writer used it
+        char link[512];
+        const std::string self = "/proc/self/fd/" + std::to_string(predicted_fd);
+        ssize_t n = ::readlink(self.c_str(), link, sizeof(link) - 1);
+        *syscall_close_fault = n > 0 && std::string(link, static_cast<size_t>(n)) == path;
+    }
     r.file = slurp(path);
     return r;
 }
@@ -329,6 +369,7 @@ static void prop(Src& s) {
     long rlimit = -1;
     long offset = -1;
     bool expect_fired = false;
+    bool syscall_close = false;
     if (kind == K_WRITE) {
         // byte offset: every offset of small files is reachable; boundaries and the very end are favoured
         switch (s.weighted({4, 2, 2, 1})) {
@@ -357,6 +398,9 @@ static void prop(Src& s) {
         g.fail_fsync = true;
         expect_fired = p.comp != 2 || true;
         fault = "fsync fails with EIO";
+    } else if (p.comp == 2 || s.chance(1, 3)) {
+        syscall_close = true;
+        fault = "the close system call on the output descriptor fails with EIO (seccomp)";
     } else {
         g.fail_close_nth = ref_closes > 0 ? static_cast<int>(s.draw(static_cast<uint64_t>(ref_closes))) : 0;
         expect_fired = ref_closes > 0;
@@ -366,8 +410,10 @@ static void prop(Src& s) {
     const std::string what = base + " fault: " + fault + (explicit_close ? "" : " [destructor only]");
     if (vp::want_desc()) vp::describe(what);
 
-    RunResult r = run_writer(p, explicit_close, rlimit);
-    const bool fired = rlimit >= 0 ? (rlimit < S) : g.fired.load();
+    const bool wanted_syscall_close = syscall_close;
+    RunResult r = run_writer(p, explicit_close, rlimit, &syscall_close);
+    const bool fired = wanted_syscall_close ? syscall_close : rlimit >= 0 ? (rlimit < S) : g.fired.load();
+    if (wanted_syscall_close && !syscall_close) vp::count("syscall_close_fault_not_set_up");
     (void)expect_fired;
     const std::string outcome = r.threw ? "exception from " + r.where + ": " + r.what : "no exception";
 
@@ -394,7 +440,7 @@ static void prop(Src& s) {
         // reports an interrupted write as an error, which the Writer passes on -- reported, not lost. Observed, not asserted.
         if ((kind == K_EINTR || kind == K_SHORT) && r.threw) vp::count(p.comp == 1 ? "observed_gzip_reports_interrupted_write" : "observed_interrupted_or_short_write_reported");
     }
-    vp::count(std::string{"fault_"} + (kind == K_WRITE ? (rlimit >= 0 ? "filesize-limit" : "write") : kind == K_EINTR ? "eintr" : kind == K_SHORT ? "short-writes" : kind == K_FSYNC ? "fsync" : "close"));
+    vp::count(std::string{"fault_"} + (kind == K_WRITE ? (rlimit >= 0 ? "filesize-limit" : "write") : kind == K_EINTR ? "eintr" : kind == K_SHORT ? "short-writes" : kind == K_FSYNC ? "fsync" : wanted_syscall_close ? "close-syscall" : "close"));
     vp::count("compression_" + std::to_string(p.comp));
     vp::count(r.threw ? "reported_by_" + r.where : std::string{"no_exception"});
     if (fired) vp::count("fault_fired");
